@@ -207,6 +207,7 @@ def _pos_is_read(rj):
 def c05(ctx):
     drv = ctx.build()
     models.run_family(ctx, "txn")
+    models.run_family(ctx, "store")
     n = 12 if ctx.quick else 80
     outs = run_conc(ctx, drv, n, ctx.seed) + run_conc(ctx, drv, n // 2, ctx.seed + 7, profile="reader")
     stats = judge_conc(ctx, outs, "c05", exact=False, filt=_pos_is_read)
@@ -283,6 +284,8 @@ def c08(ctx):
 def c12(ctx):
     drv = ctx.build(race=True)
     models.run_family(ctx, "conc")
+    if not ctx.quick:
+        models.run_family(ctx, "store")
     n = 6 if ctx.quick else 40
     outs = run_conc(ctx, drv, n, ctx.seed + 5, par=2, shards=8, watchdog="180s")
     stats = judge_conc(ctx, outs, "c12", exact=True, report_watchdog=False)
@@ -681,6 +684,31 @@ def c10(ctx):
 @check("C09")
 def c09(ctx):
     levels_check(ctx, "C09")
+
+
+# --------------------------------------------------------------------------- C15
+@check("C15")
+def c15(ctx):
+    drv = ctx.build()
+    models.run_family(ctx, "conc")
+    n = 6 if ctx.quick else 40
+    outs = run_conc(ctx, drv, n, ctx.seed + 20, profile="stress", par=3, shards=6, watchdog="60s") + \
+        run_conc(ctx, drv, n // 2, ctx.seed + 21, profile="mixed", par=3, shards=2, watchdog="60s")
+    stats = judge_conc(ctx, outs, "c15", exact=True, report_watchdog=True)
+    left = 0
+    for out, summ, o, rc in outs:
+        if summ:
+            for r in summ["results"]:
+                if r.get("wal_left", 0) > 0 and not r.get("watchdog"):
+                    left += 1
+                    p = ctx.save_replay("c15-wal-left-%s.json" % r["id"], r)
+                    ctx.violation(p, "after Close returned %d wal file(s) were still in the directory of scenario %s: "
+                                     "the flusher had not finished" % (r["wal_left"], r["id"]), match={"kind": "wal-left"})
+    std_cov(ctx, stats, "stress scenarios (3-5 goroutines, rotation on every commit, flush queue 0..2, many Begins while a "
+                        "commit is in progress, Close with flushes pending, reopen at once and read everything) under a "
+                        "60 s watchdog per scenario (normal: < 1 s); a call that does not return, a wal file left behind "
+                        "by Close, or a history AbsTxn rejects (incl. the Close/Open pair) is a violation")
+    ctx.assumptions += ["Close concurrent with calls still in flight is outside the property as read here"]
 
 
 # --------------------------------------------------------------------------- C16
